@@ -49,6 +49,15 @@ func c05load(g *Gen, i int, path string, files map[string]string, names []string
 	os.Chdir(filepath.Join(os.Getenv("GOPATH"), "src"))
 	defer os.Chdir(cwd)
 	b := parser.New()
+	if c05depFirst {
+		ud := filepath.Join(os.Getenv("GOPATH"), "src", path+"user")
+		os.MkdirAll(ud, 0755)
+		defer os.RemoveAll(ud)
+		os.WriteFile(filepath.Join(ud, "user.go"), []byte("package c05user\n\nimport _ \""+path+"\"\n"), 0644)
+		if err := b.AddDir(path + "user"); err != nil {
+			return nil, err
+		}
+	}
 	if err := b.AddDir(path); err != nil {
 		return nil, err
 	}
@@ -83,6 +92,13 @@ func c12load(g *Gen, i int, tags []string, path string, files map[string]string,
 			return nil, err
 		}
 		return b.FindTypes()
+	}
+	if c12viaImporter {
+		write(path+"user", "user.go", "package c12user\n\nimport _ \""+path+"\"\n")
+		defer os.RemoveAll(filepath.Join(src, path+"user"))
+		if err := b.AddDir(path + "user"); err != nil {
+			return nil, err
+		}
 	}
 	if err := b.AddDir(path); err != nil {
 		return nil, err
